@@ -48,9 +48,13 @@ def plan(tier: str) -> dict:
     return {"runs": 9000, "wall_s": 1700, "task_timeout": 900}
 
 
-def gen_traj_noise(tape: Tape) -> tuple[dict, int, str]:
-    kind = tape.choice(["spam", "amplitude", "detuning", "lindblad"], "traj_noise")
+def gen_traj_noise(tape: Tape, backend: str = "") -> tuple[dict, int, str]:
+    kind = tape.choice(["spam", "amplitude", "detuning", "lindblad"] + (["spam_prep"] if backend == "sv" else []), "traj_noise")
     n = tape.int(2, 6, "n_trajectories")
+    if kind == "spam_prep":
+        # emu-sv simulates shots with badly prepared atoms, including shots in which no atom at all was loaded
+        # (emu-mps refuses registers with fewer than two well-prepared atoms, C25's subject, so this is emu-sv only)
+        return {"state_prep_error": round(tape.float(0.3, 0.6, "prep"), 2)}, tape.int(4, 12, "n_trajectories_prep"), kind
     if kind == "spam":
         # measurement errors only: with state-preparation errors emu-mps refuses registers that end up with fewer
         # than two well-prepared atoms (C25's subject), which has nothing to do with the calendar
@@ -116,7 +120,7 @@ def run_one(tape: Tape, tier: str, opts: dict) -> dict:
             ntraj = 1
             tkind = "-"
             if tape.bool(0.25, "multi_traj") and case["backend"] in ("sv", "mps-tdvp"):
-                noise, ntraj, tkind = gen_traj_noise(tape)
+                noise, ntraj, tkind = gen_traj_noise(tape, case["backend"])
                 if case["scn"].get("xy"):
                     noise = C.xy_compatible(noise) or {"dephasing_rate": 0.5}
                 case["cfg"]["noise"] = noise
